@@ -136,6 +136,8 @@ class Flows:
         self.pending = []          # requests sent to a backend: (event, request headers..., ua)
         self.seq = 0
         self.conns = []            # client connections opened to the proxy: (cid, ip, port)
+        self.next_conn = 0         # connection ids are handed out in order: accepts and the proxy's own dials
+        self.out_conn = None       # the connection the proxy dialled to the TCP next hop
 
     # ---- pieces
     def nid(self):
@@ -370,6 +372,32 @@ class Flows:
         src = r.choice(self.hops)
         return s.ev_udp(self.li, src, data)
 
+    def outbound_tcp(self):
+        """a request routed to the TCP next hop (the proxy dials it), then requests coming BACK over that
+        connection from the next hop (received-support of connections the proxy opened itself)"""
+        r, s = self.rng, self.s
+        if not self.tcphops:
+            return None
+        hop = self.tcphops[0]
+        if self.out_conn is None:
+            a, b = self.uri_pair()
+            ua = r.choice(self.uas)
+            data, hs = self.request(r.choice(METHODS), b"sip:x@elsewhere.example.net", ua, self.ft(a, b"o%d" % self.nid(), False),
+                                    self.ft(b"sip:u@nowhere.example.net", None, False), b"ob-%d" % self.nid(),
+                                    routes=[b"<sip:" + hop[0] + b":%d;transport=tcp;lr>" % hop[1]])
+            s.ev_udp(self.li, ua, data)
+            self.out_conn = self.next_conn
+            self.next_conn += 1
+            return self.out_conn
+        # the next hop sends a request of its own over the connection the proxy opened
+        sentby = r.choice([b"10.2.2.2:5080", hop[0] + b":%d" % hop[1], b"10.2.2.2"])
+        via = b"SIP/2.0/TCP " + sentby + b";branch=z9hG4bK-ob%d" % self.nid() + r.choice([b"", b";rport", b";rport=7;received=10.7.7.7", b";received=10.7.7.7"])
+        h = r.choice(self.hops)
+        hs = [(b"Via", via), (b"Route", b"<sip:" + h[0] + b":5080;lr>"), (b"From", b"<sip:nh@" + hop[0] + b">;tag=n%d" % self.nid()),
+              (b"To", b"<sip:u@nowhere.example.net>"), (b"Call-ID", b"obr-%d" % self.nid()), (b"CSeq", b"1 OPTIONS")]
+        s.ev_data(self.out_conn, msg(b"OPTIONS sip:x@elsewhere.example.net SIP/2.0", hs, body_bytes(r)))
+        return self.out_conn
+
     def build(self, n_events):
         r = self.rng
         w = self.o.get("weights", {"svc": 4, "resp": 4, "route": 3, "static": 2, "rawresp": 2, "miss": 1, "indialog": 3})
@@ -389,6 +417,9 @@ class Flows:
                 self.static_request()
             elif k == "rawresp":
                 self.raw_response()
+            elif k == "outbound":
+                if self.outbound_tcp() is None:
+                    self.route_request()
             elif k == "indialog":
                 done = [p for p in self.pending if p.get("totag") and p.get("answered_by")]
                 if done:
@@ -488,6 +519,10 @@ def dialog_history(rng, block, n_dialogs=None, n_backends=None, opts=None):
                          (b"Event", b"presence")]
             data, hs = f.request(method, f.service_uri(True), ua, frm, to, d["callid"], extra=extra)
             e = s.ev_udp(f.li, ua, data)
+            if method != b"BYE" and method != b"ACK" and r.random() < 0.4 and d.get("answered"):
+                # the backend answers the in-dialog request (a rejected re-INVITE leaves the dialog alive)
+                p = {"e": e, "hs": hs, "ua": None, "method": method, "callid": d["callid"], "frm": frm, "to": to, "totag": None}
+                f.backend_response(p, code=r.choice([100, 200, 200, 481, 488, 491, 603]), from_backend=d["answered"], add_to_tag=False)
             if method == b"BYE" and r.random() < 0.7 and d.get("answered"):
                 # the backend answers the BYE: the dialog is over
                 p = {"e": e, "hs": hs, "ua": None, "method": b"BYE", "callid": d["callid"], "frm": frm, "to": to, "totag": None}
